@@ -312,6 +312,8 @@ fn assigned_vars(stmts: &[Stmt], out: &mut Vec<String>) {
     }
 }
 
+const FIND_MARK: &str = "__find__";
+
 type K<'k> = &'k dyn Fn(String) -> R<String>;
 
 impl<'a> Tr<'a> {
@@ -921,6 +923,7 @@ impl<'a> Tr<'a> {
                 let v = self.expr(&c.expr)?;
                 Ok(format!("let {} := {}\n{}", ident(&c.ident.to_string()), v, self.stmts(rest, k)?))
             }
+            Stmt::Item(Item::Fn(_)) => self.stmts(rest, k),
             Stmt::Item(_) => Err("nested item unsupported".into()),
             Stmt::Macro(m) => {
                 let name = self.path_str(&m.mac.path);
@@ -1049,6 +1052,10 @@ impl<'a> Tr<'a> {
             None => "()".into(),
         };
         let v = self.with_state(v);
+        if self.folds.borrow().iter().any(|(vars, _)| vars.len() == 1 && vars[0] == FIND_MARK) {
+            // inside a searching `for`: the value found
+            return Ok(format!("(some {})", v));
+        }
         if self.loops.borrow().is_empty() {
             Ok(v)
         } else {
@@ -1069,6 +1076,10 @@ impl<'a> Tr<'a> {
     fn loop_jump(&self, is_break: bool) -> R<String> {
         if let Some((vars, with_break)) = self.folds.borrow().last() {
             // innermost enclosing construct is a `for` fold
+            if vars.len() == 1 && vars[0] == FIND_MARK {
+                // a searching `for` (`List.findSome?`): `continue` = nothing found at this element
+                return if is_break { Err("`break` inside a searching `for` is unsupported".into()) } else { Ok("none".into()) };
+            }
             if *with_break {
                 // `foldlBrk`: `inl` goes on with the next element, `inr` leaves the loop
                 return Ok(format!("(Sum.{} {})", if is_break { "inr" } else { "inl" }, self.tuple_of(vars)));
@@ -1252,6 +1263,38 @@ impl<'a> Tr<'a> {
         let with_break = jb.brk && !jb.ret;
         let mut j = J(false, 0);
         visit::Visit::visit_block(&mut j, &f.body);
+        // a SEARCHING `for`: the body assigns no outer variable, has no `break` of its own, and leaves the function with `return v`
+        // from some element (possibly from a nested searching `for`): `List.findSome?` over the elements, `continue` / falling
+        // through = `none`, then the rest of the function if nothing was found
+        {
+            struct RV(bool, bool);
+            impl<'ast> visit::Visit<'ast> for RV {
+                fn visit_expr_return(&mut self, _: &'ast ExprReturn) { self.0 = true; }
+                fn visit_expr_break(&mut self, _: &'ast ExprBreak) { self.1 = true; }
+                fn visit_expr_loop(&mut self, _: &'ast ExprLoop) { self.1 = true; }
+                fn visit_expr_while(&mut self, _: &'ast ExprWhile) { self.1 = true; }
+                fn visit_expr_closure(&mut self, _: &'ast ExprClosure) {}
+            }
+            let mut rv = RV(false, false);
+            visit::Visit::visit_block(&mut rv, &f.body);
+            let mut vars = vec![];
+            assigned_vars(&f.body.stmts, &mut vars);
+            if rv.0 && !rv.1 && vars.is_empty() && self.cfg.self_fields.is_empty() && self.loops.borrow().is_empty() {
+                let nested = self.folds.borrow().iter().any(|(v, _)| v.len() == 1 && v[0] == FIND_MARK);
+                let iter = self.iter_expr(&f.expr)?;
+                self.ctr.set(self.ctr.get() + 1);
+                let it = format!("it_{}", self.ctr.get());
+                let mut body = String::new();
+                self.bind_pat(&f.pat, &it, &mut body)?;
+                self.folds.borrow_mut().push((vec![FIND_MARK.to_string()], false));
+                let body_code = self.stmts(&f.body.stmts, &|_| Ok("none".into()));
+                self.folds.borrow_mut().pop();
+                body.push_str(&body_code?);
+                let rest_code = self.stmts(rest, k)?;
+                let found = if nested { "(some ret_)" } else { "ret_" };
+                return Ok(format!("(match (List.findSome? (fun {} =>\n{}) {}) with\n| some ret_ => {}\n| none =>\n{})", it, body, iter, found, rest_code));
+            }
+        }
         if j.0 && !with_break {
             return Err(format!("`for` over `{}` with break/continue/return in its body is unsupported", tok(&*f.expr)));
         }
@@ -1779,7 +1822,16 @@ fn main() {
                 errors.push(format!("{}: constant not found inside `{}`", cfg.name, cfg.item));
                 continue;
             }
-            let found0 = match &inner_const { Some(c) => Found::Const(c), None => match &found[0] { Found::Fn(a, b) => Found::Fn(a, b), Found::Const(c) => Found::Const(c) } };
+            // a function declared inside a function: `inner_fn` = its name, `item` = the enclosing function
+            let inner_fn: Option<ItemFn> = match (get_str(t, "inner_fn"), &found[0]) {
+                (Some(n), Found::Fn(_, block)) => block.stmts.iter().find_map(|st| if let Stmt::Item(Item::Fn(f)) = st { if f.sig.ident == n.as_str() { Some(f.clone()) } else { None } } else { None }),
+                _ => None,
+            };
+            if get_str(t, "inner_fn").is_some() && inner_fn.is_none() {
+                errors.push(format!("{}: inner function not found inside `{}`", cfg.name, cfg.item));
+                continue;
+            }
+            let found0 = match &inner_const { Some(c) => Found::Const(c), None => match (&inner_fn, &found[0]) { (Some(f), _) => Found::Fn(&f.sig, &f.block), (None, Found::Fn(a, b)) => Found::Fn(a, b), (None, Found::Const(c)) => Found::Const(c) } };
             let result: R<(String, usize, usize, String)> = (|| match &found0 {
                 Found::Const(c) => {
                     let v = tr.expr(&c.expr)?;
